@@ -164,7 +164,10 @@ def record(bindir, driver, seed, events, out, timeout=600, binary="record", extr
         cmd = [os.path.join(bindir, binary), str(seed), str(events), out]
     else:
         cmd = [os.path.join(bindir, binary), driver, str(seed), str(events), out] + (extra or [])
-    rc, o = sh(cmd, timeout, env={"VERIF_REPO": REPO})
+    env = {"VERIF_REPO": REPO}
+    if os.environ.get("VERIF_RECORD_C17"):
+        env["VERIF_C17"] = "1"
+    rc, o = sh(cmd, timeout, env=env)
     if rc != 0:
         raise ToolError("recorder %s %s failed rc=%s:\n%s" % (binary, driver, rc, o[-2000:]))
     return out
